@@ -65,7 +65,10 @@ def _compare_helper (self, other, f, rf):
     else: ov = t(other)._value
     return getattr(self._value, f)(ov)
   except Exception:
-    return getattr(other, rf)(self)
+    # Not comparable as this type: let Python try the reflected operation of
+    # the other operand (calling it from here recurses forever when the other
+    # operand is an address of another type doing the same)
+    return NotImplemented
 
 
 class _AddrBase (object):
